@@ -83,6 +83,8 @@ def run(tier, seed, replay):
     nontrivial = set()
     samples = []
     stub_items = []
+    pub = lambda api: sorted((m["name"], tuple(m["recv"]), tuple(m["params"] or []), tuple(m["results"] or [])) for m in (api["methods"] or []) if not m["name"].startswith("_"))
+    ctor = lambda api: sorted((f["name"], tuple(f["params"] or []), tuple(f["results"] or [])) for f in (api["funcs"] or []) if f["name"] != "init")
     for g in range(0, len(specs) - 1, 2):
         real, stub = obs[g], obs[g + 1]
         kind = specs[g]["what"][0]
@@ -99,8 +101,6 @@ def run(tier, seed, replay):
             continue
         dist["both-accepted"] += 1
         a, b = api_of[g], api_of[g + 1]
-        pub = lambda api: sorted((m["name"], tuple(m["recv"]), tuple(m["params"] or []), tuple(m["results"] or [])) for m in (api["methods"] or []) if not m["name"].startswith("_"))
-        ctor = lambda api: sorted((f["name"], tuple(f["params"] or []), tuple(f["results"] or [])) for f in (api["funcs"] or []) if f["name"] != "init")
         if a["package"] != b["package"] or [t["name"] for t in a["types"]] != [t["name"] for t in b["types"]] or ctor(a) != ctor(b) or pub(a) != pub(b):
             out.violation("surface-differs:" + kind, "package / type / constructor / getter signatures differ between the two modes",
                           dict(rep, normal={"package": a["package"], "funcs": ctor(a), "methods": pub(a)}, stub={"package": b["package"], "funcs": ctor(b), "methods": pub(b)}))
@@ -119,7 +119,8 @@ def run(tier, seed, replay):
             types_only = "package @PKG@\n\ntype T struct{ X int }\ntype (\n\tSrv = T\n\tHandler = T\n\tBox = T\n\tMyStruct = T\n)\n"
             for path, (d, pkg) in gobuild.FIXTURES.items():
                 open(os.path.join(b.dir, "fx", d, "fixture.go"), "w").write(types_only.replace("@PKG@", pkg))
-            for name, src in stub_items[: (60 if tier == "quick" else 500)]:
+            stub_items.sort(key=lambda it: (specs[int(it[0][1:])]["what"][0] == "random", it[0]))     # directed families first
+            for name, src in stub_items[: (140 if tier == "quick" else 800)]:
                 b.add(name, src, codegen.pkg_of(src))
                 open(os.path.join(b.dir, "gen", name, "zz_fixture.go"), "w").write(types_only.replace("@PKG@", codegen.pkg_of(src)))
             rc, errs = b.build(tags="gontainerstub")
@@ -131,6 +132,45 @@ def run(tier, seed, replay):
                     out.broke("harness: stub batch", lines[:5])
         finally:
             b.close()
+    # spellings of the flag: --stub=false is the normal mode, --stub=true / =1 the stub mode (same bytes as the canonical spelling)
+    if not replay:
+        sps, ref = [], []
+        for g in [g for g in range(0, len(specs) - 1, 2) if obs[g].get("exit") == 0][: (12 if tier == "quick" else 120)]:
+            for extra, j in ((["--stub=false"], g), (["--stub=true"], g + 1), (["--stub=1"], g + 1), (["--stub=0"], g), (["--stub", "--stub=false"], g)):
+                sps.append(dict(specs[g], id="sp%d" % len(sps), flags={}, extra_args=extra, keep_out=True))
+                ref.append(j)
+        for sp_, so, j in zip(sps, build.gx_run(tooldir, sps), ref):
+            if so.get("exit") != obs[j].get("exit") or so["out_after"].get("hash") != obs[j]["out_after"].get("hash"):
+                out.violation("flag-spelling:%s" % " ".join(sp_["extra_args"]), "%s does not behave like %s" % (" ".join(sp_["extra_args"]), "--stub" if j % 2 else "no flag"), common.slim(sp_, so))
+        dist["flag_spellings"] = len(sps)
+        # the repository's own configuration: its stub has the API of its real container, and the whole repository compiles and
+        # vets with the stub in place of the generated file (that is what the stub is for)
+        import glob as _glob, subprocess as _sp, tempfile as _tf, shutil as _sh
+        d = os.path.join(build.REPO, "internal", "gontainer")
+        files = [{"path": "internal/gontainer/" + os.path.basename(q), "content": open(q).read()} for q in [os.path.join(d, "gontainer.yaml")] + sorted(_glob.glob(os.path.join(d, "gontainer_*.yaml")))]
+        selfs = [{"id": "self%d" % st, "files": files, "patterns": ["internal/gontainer/gontainer.yaml", "internal/gontainer/gontainer_*.yaml"], "output": "out.go", "flags": {"stub": bool(st)},
+                  "version": "dev", "build_info": "self", "dump": False, "keep_out": True, "what": ["self"]} for st in (0, 1)]
+        so = build.gx_run(tooldir, selfs)
+        if so[0].get("exit") != 0 or so[1].get("exit") != 0:
+            out.violation("self:verdict", "the repository's own configuration: normal exit %s, --stub exit %s" % (so[0].get("exit"), so[1].get("exit")), common.slim(selfs[1], so[1]))
+        else:
+            a, b = build.gx_api(tooldir, [so[0]["out_content"], so[1]["out_content"]])
+            if a["package"] != b["package"] or ctor(a) != ctor(b) or pub(a) != pub(b) or [t["name"] for t in a["types"]] != [t["name"] for t in b["types"]]:
+                out.violation("surface-differs:self", "the repository's own configuration: the stub's API differs from the real container's", {"normal": pub(a), "stub": pub(b)})
+            tmp = _tf.mkdtemp(prefix="gvc17_", dir="/dev/shm")
+            try:
+                lst = _sp.run(["git", "-C", build.REPO, "ls-files", "-co", "--exclude-standard"], stdout=_sp.PIPE, text=True).stdout.split("\n")
+                for f in lst:
+                    if f.strip() and os.path.isfile(os.path.join(build.REPO, f)):
+                        os.makedirs(os.path.dirname(os.path.join(tmp, f)) or tmp, exist_ok=True)
+                        _sh.copy(os.path.join(build.REPO, f), os.path.join(tmp, f))
+                open(os.path.join(tmp, "internal/gontainer/gontainer.go"), "w").write(so[1]["out_content"])
+                q = _sp.run(["go", "vet", "-tags", "gontainerstub", ".", "./internal/gontainer/...", "./internal/cmd/..."], cwd=tmp, env=build.GOENV, stdout=_sp.PIPE, stderr=_sp.STDOUT, text=True, timeout=900)
+                if q.returncode != 0:
+                    out.violation("self:stub-does-not-build", "the repository does not compile with the stub of its own container in place of the generated file: %s" % q.stdout[-500:], {"output": q.stdout[-3000:]})
+                dist["self_stub_built"] = 1
+            finally:
+                _sh.rmtree(tmp, ignore_errors=True)
     out.coverage.update({
         "evaluations": len(specs), "distinct_nontrivial": len(nontrivial), "programs": len(stub_items),
         "rule": "random configurations (valid and with injected defects), configurations whose identifiers are Go keywords, custom package/type/constructor names; each run in both modes and compared pairwise (verdict, diagnostics, go/parser view of package, type, constructor, methods, build constraint, panic-only bodies); stubs compiled with -tags gontainerstub against types-only packages; non-trivial = distinct public method set",
